@@ -2,6 +2,8 @@
 """Regenerates the seeded-changes table of DESIGN.md section 11.6 from seeded/*/meta.json."""
 import json, glob, os, re
 NOTES = {
+ 'C20-r9-code-table-low-byte': 'Strengthened: first missed; the code probes now contain look-alikes outside ASCII (same low byte or low 7 bits as a code character, fullwidth forms, combining marks, high-bit bytes, a leading BOM).',
+ 'C18-r9-value-index-uint8': 'Strengthened: first missed; out-of-range enumeration values now include those congruent to a defined value modulo 2^8, 2^16 and 2^32 and the extreme integers (names, printers).',
  'C19-r8-size-not-len-partly-consumed-reader': 'Strengthened: first missed; exports now also read from readers of the standard library (strings, bytes, Buffer, SectionReader, bufio, LimitReader, MultiReader), fresh, partly consumed or positioned by Seek.',
  'C16-r8-shared-error-annotated-in-place': 'Strengthened: first missed; the concurrent jobs now cover every error path of every decoder kind (incomplete vectors, deferred unsupported-metric error, other versions, v2 group and order defects) and the full rendering of an error belongs to the compared outcome.',
  'C15-r8-default-options-shared-pointer': 'Strengthened: first caught by C17 only; the three processing orders of C15 now also record the report built without options while reports in four languages are interleaved.',
